@@ -44,16 +44,26 @@ Distinct(routes) == \A i, j \in DOMAIN routes : i # j => EdgesOf(routes[i]) # Ed
 Dissimilar(routes, sim) == \A i, j \in DOMAIN routes : i < j => ~TooSimilar(routes[i], routes[j], sim)
 RoutesOK(routes, k, sim) == CountOK(routes, k) /\ FirstOptimal(routes) /\ AllValid(routes) /\ Distinct(routes) /\ Dissimilar(routes, sim)
 
-(* the acceptance loop *)
+(* the acceptance loop, with the termination criteria of ksp_termination_criteria.rs as coded:        *)
+(*   exact        stop when exactly k routes are held                                                  *)
+(*   max(n)       the same, but only if n >= k  (n < k: never stops before the candidates run out)    *)
+(*   factor(n)    the same, but only if n * held >= k  (n = 0: never stops)                           *)
+(* a criterion that never fires lets the loop collect more than k routes; the result is the first k.  *)
 VARIABLES kq, accepted, remaining, kdone
 kvars == <<kq, accepted, remaining, kdone>>
 Acceptable(c, acc, sim) == /\ ValidRoute(c)
                            /\ \A i \in DOMAIN acc : EdgesOf(acc[i]) # EdgesOf(c) /\ ~TooSimilar(c, acc[i], sim)
-KStart(k, sim, first, cands) == /\ kq' = [k |-> k, sim |-> sim] /\ accepted' = <<first>> /\ remaining' = cands /\ kdone' = FALSE
-Consider == /\ ~kdone /\ Len(accepted) < kq.k /\ remaining # {}
+KStart(k, sim, term, first, cands) == /\ kq' = [k |-> k, sim |-> sim, term |-> term] /\ accepted' = <<first>>
+                                      /\ remaining' = cands /\ kdone' = FALSE
+TermFires == /\ Len(accepted) = kq.k
+             /\ \/ kq.term.type = "exact"
+                \/ kq.term.type = "max" /\ kq.term.n >= kq.k
+                \/ kq.term.type = "factor" /\ kq.term.n * Len(accepted) >= kq.k
+Consider == /\ ~kdone /\ ~TermFires /\ remaining # {}
             /\ \E c \in remaining :
                   /\ remaining' = remaining \ {c}
                   /\ accepted' = IF Acceptable(c, accepted, kq.sim) THEN Append(accepted, c) ELSE accepted
             /\ UNCHANGED <<kq, kdone>>
-KStop == /\ ~kdone /\ (Len(accepted) >= kq.k \/ remaining = {}) /\ kdone' = TRUE /\ UNCHANGED <<kq, accepted, remaining>>
+KStop == /\ ~kdone /\ (TermFires \/ remaining = {}) /\ kdone' = TRUE /\ UNCHANGED <<kq, accepted, remaining>>
+KResultOf(acc, k) == SubSeq(acc, 1, IF Len(acc) < k THEN Len(acc) ELSE k)      \* routes.take(k)
 =============================================================================
